@@ -677,3 +677,194 @@ def traits_order_area(chk, db, files, rule="TRAITSORD", skip_records=("etl::deta
                           "unsigned char: a character >= 0x80 sorts in front of 'a' here and behind it in std" % (astx.loc(f, node), what),
                           {"where": astx.loc(f)})
     return n
+
+
+# ---- SELFMOVE: an element is never move-assigned onto itself ------------------------------------------------------------------
+def check_self_move(f):
+    """`*d = move(*s)` with d and s the same position moves an element onto itself (for a type whose move assignment empties
+    its source the element is lost; the std algorithms take care never to do it: remove_if finds the first match first,
+    unique tests `++result != first`). Positions are tracked on every structural path as (base, offset): `auto d = first`
+    gives d the position of first, `++x` / `x++` add one, any other assignment a fresh base; `d != s` tested true separates
+    them. The assignment is reported when both operands denote the same (base, offset) on a first-iteration path.
+    returns None (no move-assignment through two cursors) | list of (node, d, s)"""
+    if f.get("body") is None:
+        return None
+    sites = []
+    for x in astx.all_exprs(f, into_lambdas=False):
+        if x.get("k") == "bin" and x["op"] == "=":
+            l = astx.strip_casts(x["l"])
+            r = astx.strip_casts(x["r"])
+            if l is None or r is None or l.get("k") != "un" or l["op"] != "*":
+                continue
+            if not (r.get("k") == "call" and astx.callee(r)[0] == "move" and len(r["a"]) == 1):
+                continue
+            ra = astx.strip_casts(r["a"][0])
+            if ra is None or ra.get("k") != "un" or ra["op"] != "*":
+                continue
+            sites.append(x)
+    if not sites:
+        return None
+    ids = set(id(x) for x in sites)
+    bad = []
+    fresh = [0]
+
+    def cursor(e):
+        """(name, uses value before its own step?) of `x`, `x++`, `++x`"""
+        e = astx.strip_casts(e)
+        if e is not None and e.get("k") == "un" and e["op"] in ("++", "--"):
+            n = ref_name(e["e"])
+            return (n, bool(e.get("postfix")), 1 if e["op"] == "++" else -1) if n else None
+        n = ref_name(e)
+        return (n, True, 0) if n else None
+    for p in SP.paths(f["body"]):
+        pos = {}
+        for prm in f["params"]:
+            if prm.get("n"):
+                pos[prm["n"]] = (prm["n"], 0)
+        separated = set()
+
+        def assign(n, src):
+            sn = ref_name(src) if src is not None else None
+            if sn in pos:
+                pos[n] = pos[sn]
+            else:
+                fresh[0] += 1
+                pos[n] = ("#%d" % fresh[0], 0)
+            for pr in list(separated):
+                if n in pr:
+                    separated.discard(pr)
+
+        def effects(e):
+            for x in _post_order(e):
+                if id(x) in ids:
+                    l = astx.strip_casts(x["l"])
+                    ra = astx.strip_casts(astx.strip_casts(x["r"])["a"][0])
+                    cd, cs = cursor(l["e"]), cursor(ra["e"])
+                    if cd and cs and cd[0] in pos and cs[0] in pos and cd[0] != cs[0]:
+                        pd, ps = pos[cd[0]], pos[cs[0]]
+                        # the step inside the operand has already been applied by the post-order walk: undo for postfix
+                        od = pd[1] - (cd[2] if cd[1] else 0)
+                        os_ = ps[1] - (cs[2] if cs[1] else 0)
+                        if pd[0] == ps[0] and od == os_ and frozenset((cd[0], cs[0])) not in separated and \
+                                not any(b[0] is x for b in bad):
+                            bad.append((x, cd[0], cs[0]))
+                if x.get("k") == "un" and x["op"] in ("++", "--"):
+                    n = ref_name(x["e"])
+                    if n in pos:
+                        pos[n] = (pos[n][0], pos[n][1] + (1 if x["op"] == "++" else -1))
+                        for pr in list(separated):
+                            if n in pr:
+                                separated.discard(pr)
+                if x.get("k") == "bin" and x["op"] == "=" and ref_name(x["l"]):
+                    assign(ref_name(x["l"]), x["r"])
+                if x.get("k") == "bin" and x["op"] in ("+=", "-=") and ref_name(x["l"]) in pos:
+                    fresh[0] += 1
+                    pos[ref_name(x["l"])] = ("#%d" % fresh[0], 0)
+        for ev in p:
+            if ev[0] == "backedge-cond":
+                break               # only the first iteration is exact
+            if ev[0] == "cond":
+                effects(ev[1])
+                from .arith import atoms as _atoms
+                for op, l, r in _atoms(ev[1], ev[2]):
+                    cl, cr = cursor(l), cursor(r)
+                    if op == "!=" and cl and cr:
+                        separated.add(frozenset((cl[0], cr[0])))
+            elif ev[0] == "decl":
+                if ev[1].get("init") is not None:
+                    effects(ev[1]["init"])
+                assign(ev[1]["n"], ev[1].get("init"))
+            elif ev[0] in ("expr", "ret") and ev[1] is not None:
+                effects(ev[1])
+    return bad
+
+
+def _post_order(e):
+    if e is None or not isinstance(e, dict) or e.get("k") == "lambda":
+        return
+    for c in astx.children(e):
+        for y in _post_order(c):
+            yield y
+    yield e
+
+
+def self_move_area(chk, db, prefixes, rule="SELFMOVE"):
+    n = 0
+    for f in db.funcs:
+        if f.get("body") is None or not any(f["file"].startswith(p) for p in prefixes):
+            continue
+        r = check_self_move(f)
+        if r is None:
+            continue
+        n += 1
+        construct = astx.sig(f)
+        chk.instance(rule)
+        chk.obligation(rule, construct, not r)
+        for node, d, s in r[:1]:
+            chk.violation(rule, construct, "element-moved-onto-itself",
+                          "%s: on the first pass `%s` and `%s` denote the same element, so `%s` move-assigns it onto itself (an element "
+                          "whose move assignment empties its source is lost; std::remove_if / std::unique never self-move)"
+                          % (astx.loc(f, node), d, s, astx.show(node, 50)), {"where": astx.loc(f)})
+    return n
+
+
+# ---- FOREIGNSIZE: a raw size store through another object does not drop live elements ------------------------------------------
+DESTROYERS = {"unsafe_destroy", "unsafe_destroy_all", "erase", "clear", "pop_back", "resize", "destroy", "destroy_at", "destroy_n"}
+
+
+def check_foreign_size(f):
+    """SLOTS-D judges `unsafe_set_size` on `*this`. The same call on another object of the class (a parameter, or a reference
+    local bound to `*this` / the parameter) shrinks that object: on the path to it something must have destroyed that object's
+    tail (a destroying call on the same receiver), unless the new size is the receiver's own size plus something.
+    returns None | list of (call, receiver, verdict)"""
+    if f.get("body") is None:
+        return None
+    out = []
+    seen = set()
+    for p in SP.paths(f["body"]):
+        destroyed = set()
+        for ev in p:
+            exprs = []
+            if ev[0] in ("expr", "ret", "cond") and len(ev) > 1 and ev[1] is not None:
+                exprs.append(ev[1])
+            if ev[0] == "decl" and ev[1].get("init") is not None:
+                exprs.append(ev[1]["init"])
+            for e in exprs:
+                for x in astx.walk_expr(e):
+                    if x.get("k") != "call":
+                        continue
+                    nm, q, recv, kind = astx.callee(x)
+                    r0 = astx.strip_casts(recv) if recv is not None else None
+                    rn = ref_name(r0) if r0 is not None else None
+                    if rn is None:
+                        continue
+                    if nm in DESTROYERS:
+                        destroyed.add(rn)
+                    if nm == "unsafe_set_size" and len(x["a"]) == 1 and id(x) not in seen:
+                        grows = any(y.get("k") == "call" and astx.callee(y)[0] == "size" and ref_name(astx.callee(y)[2]) == rn
+                                    for y in astx.walk_expr(x["a"][0])) and "+" in astx.show(x["a"][0], 60) and "-" not in astx.show(x["a"][0], 60)
+                        ok = grows or rn in destroyed
+                        seen.add(id(x))
+                        out.append((x, rn, ok))
+    return out or None
+
+
+def foreign_size_area(chk, db, prefixes, rule="FOREIGNSIZE"):
+    n = 0
+    for f in db.funcs:
+        if f.get("body") is None or not any(f["file"].startswith(p) for p in prefixes):
+            continue
+        r = check_foreign_size(f)
+        if not r:
+            continue
+        for call, rn, ok in r:
+            n += 1
+            label = "%s :: `%s`" % (astx.sig(f), astx.show(call, 50))
+            chk.instance(rule)
+            chk.obligation(rule, label, ok)
+            if not ok:
+                chk.violation(rule, label, "size-dropped-without-destroy",
+                              "%s: `%s` sets the element count of `%s` directly; nothing on this path destroyed the elements that fall "
+                              "out of the new size, so they are never destroyed (and a later append constructs over them)"
+                              % (astx.loc(f, call), astx.show(call, 50), rn), {"where": astx.loc(f)})
+    return n
